@@ -63,7 +63,7 @@ def run(ctx, rep):
         bufs = [l for l in back if f.locals[l]["t"].startswith("[u8; ") and l > f.argc]
         for bl in bufs:
             for c in f.calls():
-                if c.path != "core::slice::<impl [T]>::copy_from_slice":
+                if c.path not in cm.COPY:
                     continue
                 droot, dn = cm.view_info(f, list(operand_locals(c.args[0]))[0])
                 if droot != bl:
